@@ -620,6 +620,15 @@ def catalogue(big=False):
                                                  "w": ref("A", "y")}),
                                 call("V", binds={"m": lit({"we ird": 1, "b": 2})})],
                                {"r": ref("U", "r"), "o": ref("V", "o")})], "TOP", {"x": 1}))
+    # ... the typed-map member a reference to a stage's output
+    P.append(program("struct_literal_ref_map", [struct("BOX", "map<int> by_name, int n, map bag")],
+                     [S_echo("A"), S_const("G", "map<int> m, map u", {"m": {"we ird": 1, "b": 2}, "u": {"k k": 3}}),
+                      stage("U", "BOX box, int w", "string r", {"r": INST})],
+                     [pipeline("TOP", "int x", "string r",
+                               [call("A", binds={"x": self_("x")}), call("G"),
+                                call("U", binds={"box": objx(by_name=ref("G", "m"), n=ref("A", "y"), bag=ref("G", "u")),
+                                                 "w": ref("A", "y")})],
+                               {"r": ref("U", "r")})], "TOP", {"x": 1}))
     P.append(program("proj2d", [struct("PT", "int x, int y")],
                      [S_const("G", "PT[][] grid", {"grid": [[{"x": 1, "y": 2}, {"x": 3, "y": 4}], [{"x": 5, "y": 6}]]}),
                       S_echo("E", "int[][]", "xs", "ys")],
